@@ -71,14 +71,14 @@ class CalleeGen:
                 if form == "assumed":
                     lo, f["dims"] = 1, ":"
                 elif form == "lower":
-                    f["dims"] = f"{lo}:"
+                    f["dims"] = f"{lo}:" if lo != 1 else ":"
                 else:
                     f["dims"] = f"{lo}:{lo + 3}"
                 f["lo"] = [lo]
                 if mm_free and (not free_arr or r.random() < 0.3):
                     mm_free = False
-                    f["actual"] = r.choice(["mm(:, j)", "mm(i, :)", "mm(1:4, 3)", "mm(2, 3:6)", "mm(0:, i+1)",
-                                            "mm(j, 2:)"])
+                    f["actual"] = r.choice(["mm(:, j)", "mm(i, :)", "mm(1:4, 3)", "mm(2, 3:6)", "mm(0:3, j)",
+                                            "mm(j, 3:7)"])
                 else:
                     arr = free_arr.pop()
                     l, u = ARR1[arr]
@@ -94,13 +94,17 @@ class CalleeGen:
                     f["lo"], f["dims"] = [1, 1], ":,:"
                 else:
                     l1, l2 = r.choice([0, 1, 2]), r.choice([0, 1, 3])
-                    f["lo"], f["dims"] = [l1, l2], f"{l1}:,{l2}:"
+                    f["lo"], f["dims"] = [l1, l2], (f"{l1}:" if l1 != 1 else ":") + "," + (f"{l2}:" if l2 != 1 else ":")
                 f["actual"] = r.choice(["mm", "mm", "mm(1:4, 3:6)", "mm(:, 3:6)", "mm(0:3, :)"])
             else:
                 f["kind"] = "slit"
                 f["actual"] = str(r.randint(0, 6))
                 f["definable"] = False
             self.formals.append(f)
+        if self.o.get("loopvar") and not any(f["kind"] == "svar" for f in self.formals) and free_scal:
+            f = self.formals[0]
+            f.update(kind="svar", actual=free_scal.pop(), definable=True, rank=0)
+            f.pop("dims", None)
         if not any(f["definable"] for f in self.formals):
             f = self.formals[0]
             f.update(kind="svar", actual=(free_scal.pop() if free_scal else "t"), definable=True, rank=0)
@@ -272,7 +276,7 @@ def gen_case(rng):
     opts = {}
     if x < 0.52:
         kind = "plain"
-    elif x < 0.66:
+    elif x < 0.64:
         kind, opts = "bump", {"bump": True}
     elif x < 0.72:
         kind, opts = "loopvar", {"loopvar": True}
